@@ -150,6 +150,15 @@ class Emit:
         env = dict(env)
         for s in e["stmts"]:
             if s["k"] == "Let":
+                if s["pat"]["k"] == "Tuple" and s.get("init") is not None:
+                    # `let (left, right) = brackets;` -- each binding is that component of the bound value
+                    base = label(s["init"], env)
+                    for i_, q in enumerate(s["pat"].get("pats", [])):
+                        while q.get("k") in ("Ref", "Box", "Deref"):
+                            q = q["pat"]
+                        if q.get("k") == "Binding" and isinstance(base, str):
+                            env[q["name"]] = "%s.%d" % (base, i_)
+                    continue
                 if s["pat"]["k"] == "Binding" and s.get("init") is not None:
                     init = strip(s["init"])
                     if init["k"] == "Call" and (callee(init) or "").endswith("String::new"):
